@@ -273,6 +273,8 @@ def run(chk):
     _symclass_rule(chk, prog)
     _utf8bound_rule(chk, prog)
     _jdnnum_rule(chk, prog)
+    _querypure_rule(chk, prog)
+    _pairguard_rule(chk, prog)
 
 
 def _argsync_rule(chk, prog):
@@ -439,3 +441,77 @@ def _jdnnum_rule(chk, prog):
     else:
         chk.violation(rule, "pp.c", "print_jdn_one", "no-17-digit-path", fn.loc, "print_jdn_one no longer calls the 17-digit formatter")
     chk.floor(rule, 1)
+
+
+def _querypure_rule(chk, prog):
+    """What a parser yields depends only on the bytes it was fed, not on how often its owner looked at it.
+    parser/status, parser/has-more and - while there is no error - parser/error are such looks: they must leave the
+    half-parsed form and the queue of finished values alone.  (parser/error clears and flushes when it hands out an
+    error; that is the documented way to recover, and only then.)"""
+    rule = "C11-QUERYPURE"
+    chk.rule(rule, "janet_parser_status / janet_parser_has_more write nothing, and janet_parser_error changes the parser only under `status == JANET_PARSE_ERROR`")
+    tu = prog.tus["parse.c"]
+    MUT = ("janet_parser_flush", "janet_parser_consume", "janet_parser_eof", "janet_parser_produce", "popstate", "pushstate", "push_arg")
+    n = 0
+    for name in ("janet_parser_status", "janet_parser_has_more", "janet_parser_error"):
+        fn = tu.funcs.get(name)
+        if fn is None:
+            raise AnalysisBroken("parse.c: %s not found" % name)
+        chk.analysed(fn)
+        sites = [x for x in fn.nodes if (x.k == "asg" and any(y.k == "mem" and y.rec == "JanetParser" for y in x.kids[0].walk()))
+                 or (x.k == "call" and x.callee in MUT)]
+        n += 1
+        chk.instance(rule)
+        bad = None
+        for x in sites:
+            guarded = False
+            q = x.parent
+            while q is not None:
+                if q.k == "if" and any(y.k == "ref" and y.name == "JANET_PARSE_ERROR" for y in q.kids[0].walk()) and \
+                        any(z is x for z in q.kids[1].walk()):
+                    guarded = True
+                q = q.parent
+            if name != "janet_parser_error" or not guarded:
+                bad = bad or x
+        if bad is None:
+            chk.ok(rule, "%s: %s" % (name, "no writes" if not sites else "%d write(s), all under the error test" % len(sites)))
+        else:
+            chk.violation(rule, "parse.c", name, "write", bad.loc,
+                          "%s changes the parser (`%s`) on a path where no error is pending: asking a healthy parser for its status discards "
+                          "the half-parsed form and the values already queued, so the result depends on how often the owner polled" % (
+                              name, bad.text()[:50]))
+    chk.floor(rule, 3, n)
+
+
+def _pairguard_rule(chk, prog):
+    """close_struct / close_table consume the pending arguments in pairs.  An odd count is a syntax error of the input
+    and has to be reported as one before either runs: otherwise the last key is paired with whatever lies behind the
+    live part of the argument stack - a value left over from an earlier form, so the same bytes parse differently
+    depending on what the parser object saw before."""
+    rule = "C11-PAIRGUARD"
+    chk.rule(rule, "every call of a pair-consuming literal constructor (close_struct, close_table) is preceded by a test of the parity of the argument count, or the constructor tests it itself before its loop")
+    from rules.c02 import unguarded_pair_callers
+    tu = prog.tus["parse.c"]
+    n = 0
+    for name in ("close_struct", "close_table"):
+        fn = tu.funcs.get(name)
+        if fn is None:
+            raise AnalysisBroken("parse.c: %s not found" % name)
+        chk.analysed(fn)
+        n += 1
+        chk.instance(rule)
+        own = [x for x in fn.nodes if x.k == "if" and any(y.k == "bin" and y.op == "&" and strip_casts(y.kids[1]).v == 1 for y in x.kids[0].walk())
+               and any(y.k == "return" for y in x.kids[1].walk())]
+        loops = [x for x in fn.nodes if x.k == "for"]
+        if own and loops and own[0].ln <= loops[0].ln:
+            chk.ok(rule, "%s refuses an odd count itself" % name)
+            continue
+        bad = unguarded_pair_callers(prog, fn)
+        if bad:
+            c, g = bad[0]
+            chk.violation(rule, "parse.c", name, "caller:" + g.name, c.loc,
+                          "%s is called at %s (%s) without a preceding test of the parity of the argument count and does not test it itself: "
+                          "an odd-length literal is accepted and its last key takes a stale value from behind the live arguments" % (name, c.loc, g.name))
+        else:
+            chk.ok(rule, "%s: every caller tests the parity first" % name)
+    chk.floor(rule, 2, n)
